@@ -138,8 +138,12 @@ func cmdReplay(args []string) int {
 	case strings.Contains(out, "REPLAY-RESULT trouble"):
 		return ExitTrouble
 	}
-	// no result marker: the replaying process died
-	fmt.Println("replaying process died (fatal error or exit inside library code)")
+	// no result marker: the replaying process died (or its hang watchdog fired)
+	if strings.Contains(out, "VERIF-HANG:") {
+		fmt.Println("replaying process hung inside a library call")
+	} else {
+		fmt.Println("replaying process died (fatal error or exit inside library code)")
+	}
 	fmt.Printf("VIOLATION property=%s replay=%s\n", rf.Property, args[0])
 	return ExitViolation
 }
@@ -270,6 +274,7 @@ func setupWorker(w World) {
 	if s, ok := w.(WorkerSetup); ok {
 		s.SetupWorker()
 	}
+	StartHangWatchdog()
 }
 
 func cmdWorker(args []string) (code int) {
@@ -579,6 +584,9 @@ func runWorld(w World, tier string, seed uint64, total, nw int, budget time.Dura
 				oc.crashes++
 				if confirmed {
 					v := &Violation{Property: w.ID(), Oracle: "process-death", Site: firstLine(msg), Msg: "worker process died (fatal runtime error / exit inside library code): " + tail(msg, 600), Focus: focus}
+					if strings.Contains(msg, "VERIF-HANG:") {
+						v = &Violation{Property: w.ID(), Oracle: "hang", Site: "library call does not return", Msg: fmt.Sprintf("a library call did not return within %v, twice (in the worker and in a fresh process replaying the same run): %s", HangLimit(), tail(head(msg, 2500), 2500)), Focus: focus}
+					}
 					rf := &ReplayFile{Property: w.ID(), World: w.Name(), Tier: tier, Seed: seed, Run: runIdx, Focus: focus, FromSeed: true, Violation: v,
 						Trace: []string{"process died; stderr tail:", tail(msg, 1500)}}
 					_ = os.MkdirAll(ReplayDir, 0o755)
@@ -627,6 +635,16 @@ func firstLine(s string) string {
 		}
 	}
 	return "exit"
+}
+
+func head(s string, n int) string {
+	if i := strings.Index(s, "VERIF-HANG:"); i >= 0 {
+		s = s[i:]
+	}
+	if len(s) > n {
+		return s[:n] + "..."
+	}
+	return s
 }
 
 func tail(s string, n int) string {
